@@ -8,7 +8,7 @@
      val_checksum_char        _checksum(record v) = -(K + checksum) mod 2^16
      val_new_word_sum         record(new(pid)) : sixteen LE words sum to 0 mod 65536, parse accepts it
      val_parse_rejects_altered_checksum / val_parse_accepts_iff
-     entry_new_spec entry_new_ok entry_new_record_total_refuted
+     entry_new_spec entry_new_ok entry_new_record_total
      entry_set_data_length_spec default_sector_count_spec *)
 From Coq Require Import ZArith List Bool Lia ZifyBool.
 From PV.Base Require Import Prim ListX.
@@ -269,9 +269,10 @@ Proof.
     rewrite pack_s_exact by exact Hl. destruct e; reflexivity.
 Qed.
 
-(* the media-type table and the sector count of new() *)
+(* the media-type table, the sector count and the range checks of new() *)
 Theorem entry_new_spec sc ls m st b :
   entry_new sc ls m st b =
+  if negb (new_args_ok sc ls m st) then None else
   match m with
   | MNoemul => Some (mk_entry (if b then 136 else 0) 0 ls st sc 0 0 (repeat 0 19))
   | MFloppy => if (sc =? 2400) || (sc =? 2880) || (sc =? 5760) then
@@ -283,16 +284,19 @@ Theorem entry_new_spec sc ls m st b :
   | MOther => None
   end.
 Proof.
-  unfold entry_new. destruct m; try reflexivity.
-  destruct (sc =? 2400) eqn:E1; [reflexivity|]. destruct (sc =? 2880) eqn:E2; [reflexivity|].
-  destruct (sc =? 5760) eqn:E3; reflexivity.
+  unfold entry_new, new_args_ok. change (u16_ok 1) with true. cbn [negb].
+  destruct (u16_ok ls); destruct (u8_ok st); destruct m; cbn [negb andb]; try reflexivity;
+    try (destruct (u16_ok sc); reflexivity);
+    destruct (sc =? 2400) eqn:E1; try reflexivity; destruct (sc =? 2880) eqn:E2; try reflexivity;
+    destruct (sc =? 5760) eqn:E3; reflexivity.
 Qed.
 
 Theorem entry_new_ok sc ls m st b e : entry_new sc ls m st b = Some e ->
-  new_args_ok sc ls m st = true ->
+  new_args_ok sc ls m st = true /\
   entry_ok e = true /\ e_boot_indicator e = (if b then 136 else 0) /\ e_load_rba e = 0.
 Proof.
-  rewrite entry_new_spec. unfold new_args_ok. intros H Ha. andb_split Ha.
+  rewrite entry_new_spec. destruct (new_args_ok sc ls m st) eqn:Ha; cbn [negb]; [|discriminate].
+  intros H. split; [reflexivity|]. unfold new_args_ok in Ha. andb_split Ha.
   assert (Hgen : forall mt s, 0 <= mt <= 4 -> u16_ok s = true ->
             entry_ok (mk_entry (if b then 136 else 0) mt ls st s 0 0 (repeat 0 19)) = true).
   { intros mt s Hmt Hs. unfold entry_ok.
@@ -308,17 +312,21 @@ Proof.
   - discriminate H.
 Qed.
 
-(* new() does not check what struct.pack will refuse: a 'noemul' entry of more than 65535 sectors
-   (boot file over 32 MiB with the default boot_load_size) is created, and record() then raises *)
-Theorem entry_new_record_total_refuted :
-  exists sc ls m st b e, entry_new sc ls m st b = Some e /\ entry_record e = None.
+(* every entry new() creates can be recorded (since commit 262580a new() checks what struct.pack
+   would refuse: before, a 'noemul' entry of more than 65535 sectors was created and write() failed) *)
+Theorem entry_new_record_total sc ls m st b e : entry_new sc ls m st b = Some e ->
+  entry_record e <> None /\ entry_record e = Some (entry_bytes e) /\
+  entry_parse (entry_bytes e) = Some e.
 Proof.
-  exists (default_sector_count (2048 * 16384 + 1)), 0, MNoemul, 0, true. eexists.
-  split; [vm_compute; reflexivity|vm_compute; reflexivity].
+  intros H. destruct (entry_new_ok _ _ _ _ _ _ H) as (_ & Ho & _).
+  destruct (entry_roundtrip e Ho) as (Hr & _ & Hp). rewrite Hr. split; [discriminate|split; [reflexivity|exact Hp]].
 Qed.
-Theorem entry_new_record_total_partial sc ls m st b e : entry_new sc ls m st b = Some e ->
-  new_args_ok sc ls m st = true -> entry_record e = Some (entry_bytes e).
-Proof. intros H Ha. apply entry_roundtrip. eapply entry_new_ok; eauto. Qed.
+Example entry_new_limits :
+  entry_new 65535 0 MNoemul 0 true <> None /\ entry_new 65536 0 MNoemul 0 true = None /\
+  entry_new (default_sector_count (2048 * 16384 + 1)) 0 MNoemul 0 true = None /\
+  entry_new 65536 0 MHdemul 0 true <> None /\ entry_new 4 65536 MNoemul 0 true = None /\
+  entry_new 4 0 MNoemul 256 true = None /\ entry_new (-1) 0 MNoemul 0 false = None.
+Proof. repeat match goal with |- _ /\ _ => split end; vm_compute; congruence. Qed.
 
 (* set_data_length: the least number of 512-byte virtual sectors covering [len] *)
 Theorem entry_set_data_length_spec e len :
@@ -411,6 +419,6 @@ Print Assumptions val_parse_rejects_altered_checksum.
 Print Assumptions val_parse_accepts_iff.
 Print Assumptions entry_roundtrip.
 Print Assumptions entry_new_ok.
-Print Assumptions entry_new_record_total_refuted.
+Print Assumptions entry_new_record_total.
 Print Assumptions entry_set_data_length_spec.
 Print Assumptions header_roundtrip.
